@@ -202,6 +202,10 @@ class P:
                 while self.peek()[1] not in ("=", ";"):
                     self.next()
             self.expect("=")
+            if self.peek()[1] == "if":
+                st = self.stmt()            # an `if` statement whose blocks end in a value
+                self.expect(";")
+                return ("letif", name, st)
             e = self.expr()
             self.expect(";")
             return ("let", name, e)
@@ -314,6 +318,8 @@ def cond(e, env, cx):
         return ("bool", f"(isInfinite {num(e[2], env, cx)})")
     if k == "var" and e[1] in ("true", "false"):
         return ("bool", e[1])
+    if k == "var" and e[1] in getattr(cx, "boolvars", set()) and e[1] in env:
+        return ("bool", env[e[1]])
     if k == "fcall" and e[1] in getattr(cx, "boolfns", {}):
         return ("bool", f"({cx.boolfns[e[1]]} {' '.join(num(a, env, cx) for a in e[2])})")
     raise TranslateError(f"{cx.fname}: not a condition: {e[0]}")
@@ -398,6 +404,13 @@ def tr(stmts, env, cx, result, ind):
         val = num(s[2], env, cx)
         env2 = dict(env); env2[name] = ln
         return f"let {ln} : R := {val};\n{pad}" + tr(rest, env2, cx, result, ind)
+    if k == "letif":
+        name = s[1]
+        ln = lean_name(name)
+        val = tr([s[2]], env, cx, result, ind + 1)
+        env2 = dict(env); env2[name] = ln
+        cx.boolvars = getattr(cx, "boolvars", set()) | {name}
+        return f"let {ln} : Bool :=\n{pad}  ({val});\n{pad}" + tr(rest, env2, cx, result, ind)
     if k == "exprstmt":
         e = s[1]
         if e[0] == "fcall" and e[1] in cx.localfns:
@@ -598,7 +611,42 @@ def generate(kin_src, cons_src):
     return "\n".join(L) + "\n"
 
 
+def generate_coll(coll_src):
+    """`CollisionTask::collides`: the decision logic with the three parry3d queries as named oracles"""
+    body, _ = fn_body(coll_src, "collides")
+    flat = " ".join(re.sub(r"//[^\n]*", "", body).split())
+    subs = [
+        (r"let r_min = \*safety\.min_distance\(self\.i, self\.j\);", ""),
+        (r"parry3d::query::intersection_test\( self\.transform_i, self\.shape_i, self\.transform_j, self\.shape_j, \) \.expect\(SUPPORTED\)", "INTERSECTS"),
+        (r"let \(sm_shape, sm_transform, bg_shape, bg_transform\) = if self\.shape_i\.vertices\(\)\.len\(\) < self\.shape_j\.vertices\(\)\.len\(\) \{ "
+         r"\(self\.shape_i, self\.transform_i, self\.shape_j, self\.transform_j\) \} else \{ \(self\.shape_j, self\.transform_j, self\.shape_i, self\.transform_i\) \}; "
+         r"let am_aaabb = sm_shape\.aabb\(sm_transform\)\.loosened\(r_min\); if !am_aaabb\.intersects\(&bg_shape\.aabb\(bg_transform\)\)", "if !AABB_NEAR"),
+        (r"parry3d::query::distance\( self\.transform_i, self\.shape_i, self\.transform_j, self\.shape_j, \) \.expect\(SUPPORTED\)", "DISTANCE"),
+        (r"if collides \{ Some\(\(self\.i\.min\(self\.j\), self\.i\.max\(self\.j\)\)\) \} else \{ None \}", "collides"),
+    ]
+    for pat, rep in subs:
+        if not re.search(pat, flat):
+            raise TranslateError("CollisionTask::collides no longer contains: " + pat[:70])
+        flat = re.sub(pat, rep, flat, count=1)
+    cx = Ctx("taskCollidesSrc", "0")
+    cx.boolvars = {"INTERSECTS", "AABB_NEAR"}
+    env = {"r_min": "r_min_", "INTERSECTS": "intersects_", "AABB_NEAR": "aabbNear_", "DISTANCE": "distance_",
+           "NEVER_COLLIDES": "neverCollides", "TOUCH_ONLY": "touchOnly"}
+    def _none(e):
+        raise TranslateError("collides: falls off the end")
+    term = tr(P(tokenize(flat)).stmts_until_eof(), env, cx, _none, 1)
+    return ("/- GENERATED by tools/rs2lean_ctl.py from /repo/src/collisions.rs on every run. Do not edit. -/\n"
+            "import OpwVerif.Collisions\nset_option linter.unusedVariables false\nnamespace Opw.SrcColl\nopen Opw\n"
+            "variable {R : Type} [OpwNum R]\n\n"
+            "/-- `CollisionTask::collides` (`Some(pair)` = true): `r_min` is the pair's entry of the safety table, the three parry3d\n"
+            "queries (intersection test, AABB pre-filter, distance) are parameters -/\n"
+            "def taskCollidesSrc (r_min_ : R) (intersects_ aabbNear_ : Bool) (distance_ : R) : Bool :=\n  " + term + "\n\nend Opw.SrcColl\n")
+
+
 if __name__ == "__main__":
     k = open("/repo/src/kinematics_impl.rs").read()
     c = open("/repo/src/constraints.rs").read()
-    sys.stdout.write(generate(k, c))
+    if len(sys.argv) > 1 and sys.argv[1] == "coll":
+        sys.stdout.write(generate_coll(open("/repo/src/collisions.rs").read()))
+    else:
+        sys.stdout.write(generate(k, c))
